@@ -285,47 +285,64 @@ def calls_path(n, regex):
 
 
 def pop_order(h, callee_regex):
-    """Stack machines pop the RIGHT operand first: for every `match (stack.pop(), stack.pop()) { (P1, P2) => .. callee(x, y, ..) }`
-    the call's first operand must be bound by P2 (second pop = left operand) and its second operand by P1, in every arm that
-    makes the call. Returns [(line, 'ok'|'swapped'|'unrelated')]."""
-    out = []
+    """Stack machines pop the RIGHT operand first. Every `stack.pop()` is numbered in evaluation order (pre-order of the tree, tuple
+    elements left to right); a binding that destructures the value of pop #n carries that number (tuple patterns position-wise;
+    `let x = stack.pop()?`; nested `match stack.pop() { Some(right) => match stack.pop() { Some(left) => ..` alike). For a call
+    `callee(x, y, ..)` whose first two operands come from two different pops, x must come from the LATER pop (the left operand) and
+    y from the earlier one. Returns [(line, 'ok'|'swapped'|'unrelated')]."""
     def popcall(z):
-        z = z if isinstance(z, dict) else {}
-        return z.get("k") == "mcall" and z.get("name") == "pop"
-    for m in find_all(h["body"], lambda z: z.get("k") == "match" and isinstance(z.get("scrut"), dict) and z["scrut"].get("k") == "tup" and len(z["scrut"]["es"]) == 2 and all(popcall(e) for e in z["scrut"]["es"])):
+        return isinstance(z, dict) and z.get("k") == "mcall" and z.get("name") == "pop"
+    seq = {}       # id(pop node) -> number
+    counter = [0]
+    bind_pop = {}  # binding id -> pop number
+
+    def number(n):
+        if isinstance(n, list):
+            for x in n:
+                number(x)
+        elif isinstance(n, dict):
+            if popcall(n):
+                counter[0] += 1
+                seq[id(n)] = counter[0]
+            for v in n.values():
+                number(v)
+    number(h["body"])
+
+    def pops_in(e):
+        return [seq[id(z)] for z in find_all(e, popcall) if id(z) in seq]
+
+    def bind_all(pat, num):
+        for b_ in find_all(pat, lambda z: z.get("k") == "bind"):
+            bind_pop[b_["id"]] = num
+
+    def assoc(pat, e):
+        e0 = e
+        while isinstance(e0, dict) and e0.get("k") in ("addr", "use", "paren"):
+            e0 = e0.get("e")
+        if isinstance(e0, dict) and e0.get("k") == "tup" and isinstance(pat, dict) and pat.get("k") == "tuple" and len(pat["pats"]) == len(e0["es"]):
+            for p_, x_ in zip(pat["pats"], e0["es"]):
+                assoc(p_, x_)
+            return
+        ps = pops_in(e)
+        if len(ps) == 1:
+            bind_all(pat, ps[0])
+
+    for m in find_all(h["body"], lambda z: z.get("k") == "match" and not str(z.get("src", "")).startswith("TryDesugar")):
         for arm in m["arms"]:
-            p = arm["pat"]
-            if p.get("k") != "tuple" or len(p["pats"]) != 2:
-                continue
-            first = {b["id"] for b in find_all(p["pats"][0], lambda z: z.get("k") == "bind")}
-            second = {b["id"] for b in find_all(p["pats"][1], lambda z: z.get("k") == "bind")}
-            for c in find_all(arm["body"], lambda z: calls_path(z, callee_regex)):
-                args = c.get("args", [])
-                if len(args) < 2:
-                    continue
-                a0l = bool(find_all(args[0], lambda z: is_lid(z, second))); a0r = bool(find_all(args[0], lambda z: is_lid(z, first)))
-                a1l = bool(find_all(args[1], lambda z: is_lid(z, second))); a1r = bool(find_all(args[1], lambda z: is_lid(z, first)))
-                if a0l and a1r and not a0r and not a1l:
-                    out.append((c["ln"], "ok"))
-                elif a0r and a1l and not a0l and not a1r:
-                    out.append((c["ln"], "swapped"))
-                else:
-                    out.append((c["ln"], "unrelated"))
-    # sequential form: `let right = stack.pop()?; let left = stack.pop()?; callee(left, right, ..)` in one block
-    for blk in find_all(h["body"], lambda z: z.get("k") == "block" and z.get("stmts")):
-        st = blk["stmts"] + ([blk["expr"]] if blk.get("expr") else [])
-        pops = [(i, s_["pat"]["id"]) for i, s_ in enumerate(st) if isinstance(s_, dict) and s_.get("k") == "let" and isinstance(s_.get("pat"), dict) and s_["pat"].get("k") == "bind" and s_.get("init") is not None and find_all(s_["init"], popcall) and not find_all(s_["init"], lambda z: z.get("k") == "tup")]
-        if len(pops) < 2:
+            assoc(arm["pat"], m["scrut"])
+    for l_ in find_all(h["body"], lambda z: z.get("k") in ("let", "letexpr") and z.get("init") is not None and isinstance(z.get("pat"), dict)):
+        assoc(l_["pat"], l_["init"])
+    out = []
+    for c in find_all(h["body"], lambda z: calls_path(z, callee_regex)):
+        args = c.get("args", [])
+        if len(args) < 2:
             continue
-        first, second = {pops[0][1]}, {pops[1][1]}
-        for s_ in st[pops[1][0] + 1:]:
-            for c in find_all(s_, lambda z: calls_path(z, callee_regex)):
-                args = c.get("args", [])
-                if len(args) < 2:
-                    continue
-                a0l = bool(find_all(args[0], lambda z: is_lid(z, second))); a0r = bool(find_all(args[0], lambda z: is_lid(z, first)))
-                a1l = bool(find_all(args[1], lambda z: is_lid(z, second))); a1r = bool(find_all(args[1], lambda z: is_lid(z, first)))
-                out.append((c["ln"], "ok" if (a0l and a1r and not a0r and not a1l) else "swapped" if (a0r and a1l and not a0l and not a1r) else "unrelated"))
+        n0 = {bind_pop[z["res"]["id"]] for z in find_all(args[0], lambda z: z.get("k") == "path" and (z.get("res") or {}).get("dk") == "Local" and z["res"].get("id") in bind_pop)}
+        n1 = {bind_pop[z["res"]["id"]] for z in find_all(args[1], lambda z: z.get("k") == "path" and (z.get("res") or {}).get("dk") == "Local" and z["res"].get("id") in bind_pop)}
+        if len(n0) == 1 and len(n1) == 1 and n0 != n1:
+            out.append((c["ln"], "ok" if list(n0)[0] > list(n1)[0] else "swapped"))
+        elif n0 or n1:
+            out.append((c["ln"], "unrelated"))
     return out
 
 
